@@ -712,3 +712,102 @@ Proof.
   split; [exact E1|]. split; [exact E3|]. split; [reflexivity|]. split; [reflexivity|].
   intros tj Hj. rewrite get_put_other by congruence. reflexivity.
 Qed.
+
+(* ------------------------------------------------------------------ *)
+(* Part 6: set_data / rename: the rows of exactly the re-labelled nodes change their payload *)
+
+Definition upd_rows (group : list nat) (g : info -> info) (r : row) : row :=
+  if existsb (Nat.eqb (r_id r)) group then (r_par r, r_id r, g (r_info r)) else r.
+
+Lemma map_id_on {X} (f : X -> X) l : (forall x, In x l -> f x = x) -> map f l = l.
+Proof. induction l as [|x l IH]; intros H; [reflexivity|]. cbn. rewrite H by now left. f_equal. apply IH. intros y Hy. apply H. now right. Qed.
+
+Lemma set_info_rows_map n g f : NoDup (ids f) -> In n (ids f) ->
+  rows 0 (set_info_at n g f) = map (upd_rows [n] g) (rows 0 f).
+Proof.
+  intros ND Hin. destruct (set_info_effect n g f Hin) as (A & B & o & s & E1 & _ & E2).
+  rewrite E2, E1, map_app. cbn [map].
+  assert (NDr : NoDup (map r_id (rows 0 f))) by (rewrite rows_ids; exact ND).
+  rewrite E1, map_app in NDr. cbn [map] in NDr. change (r_id (o, n, rinfo s)) with n in NDr.
+  pose proof (NoDup_remove_2 _ _ _ NDr) as Hn.
+  assert (HA : map (upd_rows [n] g) A = A).
+  { apply map_id_on. intros x Hx. unfold upd_rows. cbn [existsb]. destruct (Nat.eqb (r_id x) n) eqn:E; [|reflexivity].
+    exfalso. apply Nat.eqb_eq in E. apply Hn. apply in_or_app. left. rewrite <- E. now apply in_map. }
+  assert (HB : map (upd_rows [n] g) B = B).
+  { apply map_id_on. intros x Hx. unfold upd_rows. cbn [existsb]. destruct (Nat.eqb (r_id x) n) eqn:E; [|reflexivity].
+    exfalso. apply Nat.eqb_eq in E. apply Hn. apply in_or_app. right. rewrite <- E. now apply in_map. }
+  apply (f_equal2 (@app row)); [symmetry; exact HA|]. apply (f_equal2 (@cons row)); [|symmetry; exact HB].
+  unfold upd_rows. cbn [existsb r_id r_par r_info fst snd]. rewrite Nat.eqb_refl. reflexivity.
+Qed.
+
+Lemma upd_rows_id group g r : r_id (upd_rows group g r) = r_id r.
+Proof. unfold upd_rows. destruct (existsb _ group); reflexivity. Qed.
+
+Lemma set_info_ids n g f : NoDup (ids f) -> In n (ids f) -> ids (set_info_at n g f) = ids f.
+Proof.
+  intros ND Hin. rewrite <- !(rows_ids _ 0), (set_info_rows_map n g f ND Hin), map_map.
+  apply map_ext. intros r. apply upd_rows_id.
+Qed.
+
+Lemma upd_rows_cons m group g r : ~ In m group ->
+  upd_rows group g (upd_rows [m] g r) = upd_rows (m :: group) g r.
+Proof.
+  intros Hn. unfold upd_rows. cbn [existsb]. destruct (Nat.eqb (r_id r) m) eqn:E; cbn [orb]; [|reflexivity].
+  cbn [r_id r_par r_info fst snd]. apply Nat.eqb_eq in E.
+  destruct (existsb (Nat.eqb (r_id r)) group) eqn:Ex; [|reflexivity].
+  exfalso. apply existsb_exists in Ex. destruct Ex as (y & Hy & Ey). apply Nat.eqb_eq in Ey.
+  subst. contradiction.
+Qed.
+
+(* every member of the group gets g applied to its payload, all other rows stay *)
+Theorem relabel_rows g : forall group f, NoDup (ids f) -> NoDup group -> incl group (ids f) ->
+  rows 0 (relabel group g f) = map (upd_rows group g) (rows 0 f) /\ ids (relabel group g f) = ids f.
+Proof.
+  unfold relabel. induction group as [|m group IH]; intros f ND NDg Hi; cbn [fold_left].
+  - split; [|reflexivity]. symmetry. apply map_id_on. intros r _. reflexivity.
+  - assert (Hm : In m (ids f)) by (apply Hi; now left).
+    inversion NDg as [|? ? Hnm NDg']; subst.
+    pose proof (set_info_ids m g f ND Hm) as Eids.
+    destruct (IH (set_info_at m g f)) as (E1 & E2).
+    + now rewrite Eids.
+    + exact NDg'.
+    + rewrite Eids. intros x Hx. apply Hi. now right.
+    + split; [|now rewrite E2]. rewrite E1, (set_info_rows_map m g f ND Hm), map_map.
+      apply map_ext. intros r. now apply upd_rows_cons.
+Qed.
+
+(* set_data at the level of step: the forest is re-labelled on a group that is the node itself or
+   (with_clones=True) its whole clone group; kind and meta are never touched; registry unchanged *)
+Theorem set_data_effect w ti n d e wc r w' :
+  op_set_data w ti n d e wc = (Ok r, w') ->
+  exists t t' s group g,
+    get_tree w ti = Some t /\ get_tree w' ti = Some t' /\ get_node n (forest_of t) = Some s /\
+    forest_of t' = relabel group g (forest_of t) /\
+    (group = [] \/ group = [n] \/ group = idx_get (rdid s) (idx t)) /\
+    (forall i, i_kind (g i) = i_kind i /\ i_meta (g i) = i_meta i) /\
+    reg t' = reg t /\ next w' = next w.
+Proof.
+  unfold op_set_data. intros H.
+  destruct (get_tree w ti) as [t|] eqn:Et; [|discriminate].
+  destruct (get_node n (forest_of t)) as [s|] eqn:Es; [|discriminate].
+  assert (G : forall (P : Prop), (forall t' group g, 
+             (w' = put_tree w ti t' \/ (w' = w /\ t' = t)) -> forest_of t' = relabel group g (forest_of t) ->
+             (group = [] \/ group = [n] \/ group = idx_get (rdid s) (idx t)) ->
+             (forall i, i_kind (g i) = i_kind i /\ i_meta (g i) = i_meta i) -> reg t' = reg t -> P) -> P).
+  { intros P K.
+    repeat match type of H with
+           | (match ?x with _ => _ end) = _ => destruct x eqn:?
+           | (if ?c then _ else _) = _ => destruct c eqn:?
+           | (let (_, _) := ?x in _) = _ => destruct x eqn:?
+           end; try discriminate; injection H as <- <-.
+    all: try (eapply (K _ _ _ (or_introl eq_refl)); [cbn [forest_of set_all set_forest]; reflexivity| | |reflexivity];
+              [first [right; left; reflexivity | right; right; reflexivity | idtac]
+              | intros i; repeat match goal with |- context [match ?x with _ => _ end] => destruct x end; split; reflexivity]).
+    all: try (eapply (K t [] (fun i => i) (or_intror (conj eq_refl eq_refl))); [reflexivity|left; reflexivity|intros; split; reflexivity|reflexivity]).
+    all: repeat match goal with |- context [if ?c then _ else _] => destruct c end; auto. }
+  apply G. intros t' group g Hw Hf Hg Hk Hr.
+  destruct Hw as [->|(-> & ->)].
+  - exists t, t', s, group, g. split; [first [reflexivity|exact Et]|]. split; [exact (get_put_same _ _ t _ Et)|].
+    split; [first [reflexivity|exact Es]|]. repeat split; auto; apply Hk.
+  - exists t, t, s, group, g. repeat split; auto; apply Hk.
+Qed.
